@@ -151,11 +151,11 @@ M('C08', 'window-asymmetric', SI, "        imax = min(i + u + 1, self.csize)", "
 T('C08', 'twin-window-names', SI, "        imin = max(i - u, 0)\n        imax = min(i + u + 1, self.csize)", "        imin = max(0, i - u)\n        imax = min(self.csize, 1 + u + i)")
 
 # ---------------------------------------------------------------- C09
-M('C09', 'accumulated-wrong-state', DYN, "                    val = q + TAB_VAL[k - 1][m]", "                    val = q + TAB_VAL[k - 1][l]", 'C09.I')
-M('C09', 'emission-sign', DYN, "                p = -self.Plog(s2, y, k, track)\n                TAB_MRK[k][l] = best_ant", "                p = self.Plog(s2, y, k, track)\n                TAB_MRK[k][l] = best_ant", 'C09.S')
+M('C09', 'accumulated-wrong-state', DYN, "                    val = q + TAB_VAL[k - 1][m]", "                    val = q + TAB_VAL[k - 1][l]", 'C09.V')
+M('C09', 'emission-sign', DYN, "                p = -self.Plog(s2, y, k, track)\n                TAB_MRK[k][l] = best_ant", "                p = self.Plog(s2, y, k, track)\n                TAB_MRK[k][l] = best_ant", 'C09.V')
 M('C09', 'backpointer-before-write', DYN, "            track.setObsAnalyticalFeature(\"hmm_inference\", k, STATES[k][idk])\n            track.setObsAnalyticalFeature(\"hmm_cost\", k, TAB_VAL[k][idk])\n            if mode in [3, 4, 5]:\n                track[k].position = STATES[k][idk]\n            idk = TAB_MRK[k][idk]",
   "            idk = TAB_MRK[k][idk]\n            track.setObsAnalyticalFeature(\"hmm_inference\", k, STATES[k][idk])\n            track.setObsAnalyticalFeature(\"hmm_cost\", k, TAB_VAL[k][idk])\n            if mode in [3, 4, 5]:\n                track[k].position = STATES[k][idk]", 'C09.R')
-M('C09', 'final-argmax', DYN, "        idk = np.argmin(TAB_VAL[-1])", "        idk = np.argmax(TAB_VAL[-1])", 'C09.S')
+M('C09', 'final-argmax', DYN, "        idk = np.argmin(TAB_VAL[-1])", "        idk = np.argmax(TAB_VAL[-1])", 'C09.V')
 T('C09', 'twin-forward-rename', DYN, "                    s1 = STATES[k - 1][m]\n                    q = -self.Qlog(s1, s2, k - 1, track)\n                    val = q + TAB_VAL[k - 1][m]",
   "                    previous = STATES[k - 1][m]\n                    s1 = previous\n                    cost = -self.Qlog(previous, s2, k - 1, track)\n                    q = cost\n                    val = TAB_VAL[k - 1][m] + cost")
 
